@@ -121,7 +121,7 @@ func runMSM(r *core.Result, mc msmCase, nbTasks int, mont bool, desc string) {
 	res.SetIdentity()
 	var out *banderwagon.Element
 	var err error
-	if !guard(r, "c09.panic", "banderwagon.Element.MultiExp", desc, func() {
+	if !timed(r, "c09.panic", "banderwagon.Element.MultiExp", desc, func() {
 		out, err = res.MultiExp(mc.pts, sc, banderwagon.MultiExpConfig{NbTasks: nbTasks, ScalarsMont: mont})
 	}) {
 		return
@@ -307,7 +307,7 @@ func c09Units(ctx *core.Ctx) []core.Unit {
 					for _, split := range []bool{false, true} {
 						desc := fmt.Sprintf("msmInnerPointProj(c=%d, n=%d, splitFirstChunk=%v, small-share=%d%%)", c, n, split, share)
 						var p bandersnatch.PointProj
-						if !guard(r, "c09.panic", "bandersnatch.msmInnerPointProj", desc, func() {
+						if !timed(r, "c09.panic", "bandersnatch.msmInnerPointProj", desc, func() {
 							digits, _ := bandersnatch.VerifPartitionScalars(asScalars(mc.ss, true), uint64(c), true, 4)
 							bandersnatch.VerifMsmInner(&p, c, aff, digits, split)
 						}) {
@@ -369,7 +369,7 @@ func c09Units(ctx *core.Ctx) []core.Unit {
 					var out []fr.Element
 					var small int
 					desc := fmt.Sprintf("partitionScalars(%d scalars, c=%d, mont=%v, nbTasks=%d)", len(scalars), c, mont, nt)
-					if !guard(r, "c09.panic", "bandersnatch.partitionScalars", desc, func() { out, small = bandersnatch.VerifPartitionScalars(in, uint64(c), mont, nt) }) {
+					if !timed(r, "c09.panic", "bandersnatch.partitionScalars", desc, func() { out, small = bandersnatch.VerifPartitionScalars(in, uint64(c), mont, nt) }) {
 						continue
 					}
 					wantSmall := 0
